@@ -41,6 +41,8 @@ mod imp {
         Closure,
         Mixed,
         SelfRepl,
+        Asm,
+        Session,
     }
     impl Class {
         pub fn name(self) -> &'static str {
@@ -51,6 +53,8 @@ mod imp {
                 Class::Closure => "closure",
                 Class::Mixed => "mixed",
                 Class::SelfRepl => "selfrepl",
+                Class::Asm => "asm",
+                Class::Session => "session",
             }
         }
     }
@@ -292,9 +296,62 @@ mod imp {
             p.join("\n")
         }
 
+        /// Sessions that go on after a runtime error: an outer function captures a fresh string in a closure that
+        /// escapes through a heap object (array / vec element, or a global), then fails some frames deeper (reached
+        /// through `deep` nested frames so that its registers lie far up); the following inputs allocate, then use
+        /// the closure.
+        fn session_program(&mut self) -> String {
+            let k = self.fresh("");
+            let lit = self.rng.pick(&LITS).to_string();
+            let depth = 2 + self.rng.below(12);
+            let boom = 1 + self.rng.below(4);
+            let fail = match self.rng.below(3) {
+                0 => "return 1 / (d - d)".to_string(),
+                1 => "let e = [1]\n        return e[d + 5]".to_string(),
+                _ => "let z = null\n        return z(d)".to_string(),
+            };
+            let escape = self.rng.below(3);
+            let (decl, put, get) = match escape {
+                0 => (format!("let box{k} = [fn() {{ return \"none\" }}]"), format!("box{k}[0] = fn() {{ return s }}"), format!("box{k}[0]()")),
+                1 => (format!("let box{k} = Vec[]"), format!("box{k}.push(fn() {{ return s }})"), format!("box{k}[0]()")),
+                _ => (format!("let mut box{k} = fn() {{ return \"none\" }}"), format!("box{k} = fn() {{ return s }}"), format!("box{k}()")),
+            };
+            let rounds = 2 + self.rng.below(5);
+            let mut t = String::new();
+            t.push_str(&format!("{decl}\nfn boom{k}(d) {{\n    if d > {boom} {{\n        {fail}\n    }}\n    return boom{k}(d + 1)\n}}\nfn outer{k}(n) {{\n    let s = \"{lit}item-\" + n\n    {put}\n    return boom{k}(0)\n}}\nfn deep{k}(j, n) {{\n    if j == 0 {{ return outer{k}(n) }}\n    let a = j + 1\n    let b = a + 1\n    let c = b + 1\n    return deep{k}(j - 1, n) + a + b + c\n}}\nprintln(\"defined\")"));
+            t.push_str("\n//// next-input\n");
+            t.push_str(&format!("deep{k}({depth}, \"7\")"));
+            t.push_str("\n//// next-input\n");
+            t.push_str(&format!("let mut p{k} = \"0123456789abcdef\"\nlet mut i{k} = 0\nwhile i{k} < {rounds} {{\n    p{k} = p{k} + p{k}\n    i{k} = i{k} + 1\n}}\nprintln(p{k}.len())"));
+            t.push_str("\n//// next-input\n");
+            t.push_str(&format!("println({get})\nprintln({get} + \"|again\")"));
+            t
+        }
+
+        /// Assembly programs (bytecode the compiler never emits): a closure with few registers forwards its
+        /// argument by TailCallUpval -- the frame is reused in place -- to a plain function with MORE registers
+        /// that keeps a fresh string in a high register while a loop allocates; returns that string.
+        fn asm_program(&mut self) -> String {
+            let regs = 7 + self.rng.below(6);            // callee registers 7..12
+            let holder = 5 + self.rng.below(regs - 7 + 1); // 5 ..= regs-2 ... kept below the two temporaries
+            let t1 = regs - 2;
+            let t2 = regs - 1;
+            let holder = holder.min(t1 - 1);
+            let small = 3 + self.rng.below(2);           // forwarding closure: 3 or 4 registers
+            let loops = 2 + self.rng.below(5);
+            let arg = self.rng.pick(&LITS).to_string();
+            format!("; Aelys Assembly (.aasm)\n; generated: TailCallUpval from a {small}-register closure into a {regs}-register function, fresh string held in r{holder}\n\n.version 1\n\n.function 0\n  .arity 0\n  .registers 4\n  .nested 1\n\n  .globals\n    0: \"make\"\n    1: \"f\"\n\n  .constants\n    0: func @1 \"make\"\n    1: string \"{arg}\"\n\n  .code\n    0000: LoadK     r0, 0\n    0001: SetGlobalIdx 0, r0\n    0002: CallGlobal r1, 0, 0\n    0005: SetGlobalIdx 1, r1\n    0006: LoadK     r2, 1\n    0007: CallGlobal r1, 1, 1\n    0010: Return    r1\n\n.function 1\n  .name \"make\"\n  .arity 0\n  .registers 3\n  .nested 3\n\n  .constants\n    0: func @1 \"<lambda>\"\n    1: func @2 \"<lambda>\"\n    2: func @3 \"<lambda>\"\n\n  .code\n    0000: LoadK     r0, 0\n    0001: MakeClosure r1, k1, 1\n    0002: LoadK     r2, 2\n    0003: Move      r0, r2\n    0004: Move      r2, r1\n    0005: CloseUpvals r0\n    0006: Return    r2\n    0007: Return0\n    0008: CloseUpvals r0\n\n.function 2\n  .name \"<lambda>\"\n  .arity 1\n  .registers 2\n\n  .constants\n    0: string \"\"\n\n  .code\n    0000: LoadK     r1, 0\n    0001: Return    r1\n\n.function 3\n  .name \"<lambda>\"\n  .arity 1\n  .registers {small}\n\n  .upvalues\n    0: local 0\n\n  .code\n    0000: Move      r2, r0\n    0001: TailCallUpval r1, upval[0], 1\n\n.function 4\n  .name \"<lambda>\"\n  .arity 1\n  .registers {regs}\n\n  .constants\n    0: string \"0123456789abcdef\"\n    1: string \"item-\"\n    2: string \"junk-\"\n\n  .code\n    0000: LoadK     r1, 0\n    0001: LoadI     r2, 0\n    0002: LoadI     r3, 1\n    0003: LoadI     r4, 2\n    0004: LoadK     r{holder}, 1\n    0005: Add       r{holder}, r{holder}, r0\n  L0:\n    0006: LoadI     r{t2}, {loops}\n    0007: LtII      r{t1}, r2, r{t2}\n    0008: JumpIfNot r{t1}, L1\n    0009: Add       r{t1}, r1, r1\n    0010: Move      r1, r{t1}\n    0011: LoadI     r{t2}, 1\n    0012: AddII     r{t1}, r2, r{t2}\n    0013: Move      r2, r{t1}\n    0014: Jump      L0\n  L1:\n    0015: LoadK     r{t1}, 2\n    0016: Add       r{t1}, r{t1}, r0\n    0017: Move      r1, r{t1}\n    0018: Move      r{t1}, r{holder}\n    0019: Return    r{t1}\n")
+        }
+
         pub fn program(&mut self, cls: Class) -> String {
             if cls == Class::SelfRepl {
                 return self.selfrepl_program();
+            }
+            if cls == Class::Asm {
+                return self.asm_program();
+            }
+            if cls == Class::Session {
+                return self.session_program();
             }
             let mut p: Vec<String> = Vec::new();
             let mut tag_call = "mk_tag(\"-\")";
@@ -698,6 +755,20 @@ mod imp {
             if pre.frames.iter().any(|f| f.has_upvalues && f.closure.is_none()) {
                 self.problem("frame-upvalues-dangling".into(), format!("collection {}", self.collections));
             }
+            // an OPEN upvalue denotes a register of a running frame; if that register lies outside every
+            // frame window the captured variable is not a root although a closure can still read it
+            for (u, reg) in pre.vmst.open_upvalues.iter().zip(pre.vmst.open_upvalue_registers.iter()) {
+                if let Some(r) = reg {
+                    let inside = pre.vmst.frames.iter().zip(pre.frames.iter()).any(|((b, n, _, _), a)| {
+                        *r >= *b && *r < *b + (*n).max(a.function_num_registers.unwrap_or(0))
+                    });
+                    if !inside {
+                        self.problem("open-upvalue-into-dead-register".into(),
+                                     format!("upvalue {} refers to register {} outside every frame window ({} frames)", u, r, pre.frames.len()));
+                        break;
+                    }
+                }
+            }
             // (d) a function object MakeClosure holds only in a local (hook pending_fn).  Since /repo
             // 9ba6d0e there is no safepoint while it is pending, so this never fires; if a safepoint
             // is reintroduced there the loss is reported with its cause
@@ -774,6 +845,70 @@ mod imp {
         }
     }
 
+    /// Assembly route: a program whose first line starts with `; Aelys Assembly` is assembled by the real
+    /// assembler and executed the way `aelys-cli run x.aasm` does it (assemble, nested functions attached to
+    /// function 0, heap merged, constants remapped, function object allocated, execute); the value of the
+    /// main function is the result.  Bytecode the compiler never emits (TailCallUpval, ...) is reachable here.
+    fn run_assembly(src: &str, gc: (u8, u64), budget: u64) -> Outcome {
+        let text = src.to_string();
+        verif::sink_install();
+        verif::gc_mode_set(gc.0, gc.1);
+        verif::budget_set(budget);
+        let r = guarded(std::panic::AssertUnwindSafe(move || {
+            let bad = |m: String| aelys_common::error::AelysError::Runtime(aelys_common::error::RuntimeError::new(
+                aelys_common::error::RuntimeErrorKind::InvalidBytecode(m), Vec::new(), aelys_syntax::Source::new("<verif>", "")));
+            let (mut functions, mut heap) = aelys_bytecode::asm::assemble(&text).map_err(|e| bad(format!("assemble: {}", e)))?;
+            if functions.is_empty() {
+                return Err(bad("no function".into()));
+            }
+            let mut main = functions.remove(0);
+            if !functions.is_empty() {
+                main.nested_functions = functions;
+            }
+            let mut vm = aelys_driver::new_vm_with_config(Default::default(), Vec::new())?;
+            let remap = vm.merge_heap(&mut heap).map_err(aelys_common::error::AelysError::Runtime)?;
+            main.remap_constants(&remap);
+            let fref = vm.alloc_function(main).map_err(aelys_common::error::AelysError::Runtime)?;
+            let v = vm.execute(fref).map_err(aelys_common::error::AelysError::Runtime)?;
+            let s = vm.value_to_string(v);
+            Ok((v, s))
+        }));
+        let out = verif::sink_take();
+        verif::budget_set(u64::MAX);
+        verif::gc_mode_set(0, 0);
+        classify(r, out)
+    }
+
+    /// Session route (REPL / embedding host): the inputs separated by a line `//// next-input` are run one
+    /// after the other on the SAME VM; a failing input does not end the session (its error kind is recorded).
+    fn run_session(src: &str, opt: u32, gc: (u8, u64), budget: u64) -> Outcome {
+        let inputs: Vec<String> = src.split("\n//// next-input\n").map(|s| s.to_string()).collect();
+        verif::sink_install();
+        verif::gc_mode_set(gc.0, gc.1);
+        verif::budget_set(budget);
+        let r = guarded(std::panic::AssertUnwindSafe(move || {
+            let mut vm = aelys_driver::new_vm_with_config(Default::default(), Vec::new())?;
+            let mut s = String::new();
+            let mut last = aelys_runtime::Value::null();
+            for (k, input) in inputs.iter().enumerate() {
+                match aelys_driver::run_with_vm_and_opt(&mut vm, input, "<verif>", opt_level(opt)) {
+                    Ok(v) => { last = v; s.push_str(&format!("|{}:ok", k)); }
+                    Err(aelys_common::error::AelysError::Runtime(e)) => {
+                        let kn = kind_name(&e.kind);
+                        if kn == "Budget" { return Err(aelys_common::error::AelysError::Runtime(e)); }
+                        s.push_str(&format!("|{}:runtime:{}", k, kn));
+                    }
+                    Err(e) => return Err(e),
+                }
+            }
+            Ok((last, s))
+        }));
+        let out = verif::sink_take();
+        verif::budget_set(u64::MAX);
+        verif::gc_mode_set(0, 0);
+        classify(r, out)
+    }
+
     /// run_program + host calls announced by `// host-call: <global> [<string argument>]` lines
     fn run_with_host_calls(src: &str, opt: u32, gc: (u8, u64), budget: u64) -> Outcome {
         let hosts: Vec<(String, Option<String>)> = src
@@ -831,7 +966,7 @@ mod imp {
         let mut g = Gen::new(seed);
         let classes = [Class::Plain, Class::FnArgs, Class::Nested, Class::Closure, Class::Mixed, Class::SelfRepl];
         for k in 0..nprog {
-            let cls = classes[(k % 6) as usize];
+            let cls = if k % 13 == 12 { Class::Asm } else if k % 13 == 6 { Class::Session } else { classes[(k % 6) as usize] };
             progs.push((cls.name().to_string(), g.program(cls)));
         }
         let handle = std::thread::Builder::new().stack_size(256 << 20).spawn(move || {
@@ -854,7 +989,7 @@ mod imp {
                     let rc2 = rec.clone();
                     verif::pending_fn_set(None);
                     verif::gc_audit_install(Box::new(move |vm, after| rc2.borrow_mut().on_collect(vm, after)));
-                    let r = run_with_host_calls(src, opt, gc, budget);
+                    let r = if src.trim_start().starts_with("; Aelys Assembly") { run_assembly(src, gc, budget) } else if src.contains("\n//// next-input\n") { run_session(src, opt, gc, budget) } else { run_with_host_calls(src, opt, gc, budget) };
                     verif::gc_audit_remove();
                     let rec = rec.borrow();
                     let s = format!("{}:{}", gc.0, gc.1);
